@@ -141,9 +141,9 @@ void Scheduler::SleepPreemptive(std::uint64_t ns) {
   // <= because wakeup called before time adjustment
   if (_time <= ns) {
     auto it = _sleep_list.find(ns);
-    YACLIB_DEBUG(it == _sleep_list.end(), "sleep_list for time that is not passed yet isn't found");
-    if (it->second.Empty()) {
-      _sleep_list.erase(ns);
+    // can be already erased by another fiber that was sleeping until the same time
+    if (it != _sleep_list.end() && it->second.Empty()) {
+      _sleep_list.erase(it);
     }
   }
 }
